@@ -195,6 +195,8 @@ def gen_tree(rng, max_leaves):
         p = (l, r)
         if rng.chance(1, 4):
             shared.append(p)
+            if rng.chance(1, 3):
+                shared.append((r, l))  # the mirror image over the same children
         forest[i] = p
         del forest[i + 1]
     return forest[0]
@@ -320,6 +322,74 @@ def build_mixed(tree, expect, mod, rng, stats):
     return out[()]
 
 
+class Node:
+    """a plain CLVMStorage object: just .atom and .pair"""
+
+    __slots__ = ("atom", "pair")
+
+    def __init__(self, atom=None, pair=None):
+        self.atom = atom
+        self.pair = pair
+
+
+def build_dag(tree, kind, mod, rng, stats):
+    """The tree as an object graph in which equal sub-trees are (mostly) ONE Python object that
+    several parents point to - the way application code reuses Program values as building blocks.
+    Per distinct value the simulator decides once whether it is interned or built afresh at every
+    occurrence. kind: node (plain objects), program (Program.to over shared Program children),
+    lazy_leaves (plain pair objects over LazyNode-backed leaf Programs)."""
+    m, Program, CLVMTree = mod
+    all_interned = rng.chance(1, 2)
+    ids = {}  # value key -> small int
+    interned = {}  # small int -> bool
+    objs = {}  # small int -> object (for interned values)
+
+    def make(key):
+        if key[0] == "a":
+            b = key[1]
+            if kind == "node":
+                return Node(atom=b)
+            if kind == "program":
+                return Program.to(b)
+            return Program.from_bytes(ser_atom(b))
+        l, r = key[1], key[2]
+        if kind == "program":
+            return Program.to((l, r))
+        return Node(pair=(l, r))
+
+    res = []  # (value id, object)
+    stack = [(tree, False)]
+    while stack:
+        node, done = stack.pop()
+        if isinstance(node, (bytes, bytearray)):
+            vkey = ("a", bytes(node))
+            okey = vkey
+        elif done:
+            (rid, robj) = res.pop()
+            (lid, lobj) = res.pop()
+            vkey = ("p", lid, rid)
+            okey = ("p", lobj, robj)
+        else:
+            stack.append((node, True))
+            stack.append((node[1], False))
+            stack.append((node[0], False))
+            continue
+        vid = ids.setdefault(vkey, len(ids))
+        if vid not in interned:
+            interned[vid] = all_interned or rng.chance(2, 3)
+        if interned[vid]:
+            if vid not in objs:
+                objs[vid] = make(okey)
+                stats["dag_objects"] = stats.get("dag_objects", 0) + 1
+            else:
+                stats["dag_shared_uses"] = stats.get("dag_shared_uses", 0) + 1
+            res.append((vid, objs[vid]))
+        else:
+            stats["dag_objects"] = stats.get("dag_objects", 0) + 1
+            res.append((vid, make(okey)))
+    return res[0][1]
+
+
 WRAPPERS = [
     "program_to",
     "clvm_tree",
@@ -334,6 +404,10 @@ WRAPPERS = [
     "lazy_of_lazy",
     "mixed",
     "program_wrap_mixed",
+    "dag_node",
+    "dag_program",
+    "dag_lazy_leaves",
+    "program_wrap_dag_node",
 ]
 
 
@@ -380,6 +454,11 @@ def execute_case(case, mod):
         x = build_mixed(tree, expect, mod, Rng(case.get("decision_seed", 0) ^ 0x5151), stats)
     elif w == "program_wrap_mixed":
         x = Program.wrap(build_mixed(tree, expect, mod, Rng(case.get("decision_seed", 0) ^ 0x5151), stats))
+    elif w in ("dag_node", "dag_program", "dag_lazy_leaves", "program_wrap_dag_node"):
+        kind = {"dag_node": "node", "dag_program": "program", "dag_lazy_leaves": "lazy_leaves", "program_wrap_dag_node": "node"}[w]
+        x = build_dag(tree, kind, mod, Rng(case.get("decision_seed", 0) ^ 0xDA6), stats)
+        if w == "program_wrap_dag_node":
+            x = Program.wrap(x)
     else:
         raise ValueError("unknown wrapper " + w)
     try:
@@ -414,7 +493,7 @@ def generate_case(master, tier, run):
         max_leaves = 300 if tier == "thorough" else 120
     tree = gen_tree(rng, max_leaves)
     # lazy wrappers and the simulated storage get most of the weight
-    w = WRAPPERS[rng.below(len(WRAPPERS))] if rng.chance(1, 2) else ["sim_storage", "lazy_legacy", "lazy_backrefs", "program_wrap_lazy", "program_wrap_sim_storage", "lazy_2026", "mixed", "mixed"][rng.below(8)]
+    w = WRAPPERS[rng.below(len(WRAPPERS))] if rng.chance(1, 2) else ["sim_storage", "lazy_legacy", "lazy_backrefs", "program_wrap_lazy", "program_wrap_sim_storage", "lazy_2026", "mixed", "mixed", "dag_node", "dag_program"][rng.below(10)]
     return {"tree": tree_to_json(tree), "wrapper": w, "decision_seed": rng.next(), "churn": rng.chance(3, 4)}
 
 
@@ -645,7 +724,7 @@ def parent(tier, master, runs, workers, budget_s):
     wall = time.time() - t0
     samples = sorted(merged["samples"], key=lambda s: s["run"])[:4] or [{"note": "no non-trivial case"}]
     reach = []
-    for probe in ("fault.fresh_children", "fault.junk_alloc_free", "fault.gc_collect", "probe.wrapper.lazy_legacy", "probe.wrapper.sim_storage", "probe.wrapper.mixed", "fault.mix_handles.lazy_backrefs"):
+    for probe in ("fault.fresh_children", "fault.junk_alloc_free", "fault.gc_collect", "probe.wrapper.lazy_legacy", "probe.wrapper.sim_storage", "probe.wrapper.mixed", "fault.mix_handles.lazy_backrefs", "probe.wrapper.dag_node", "probe.wrapper.dag_program", "fault.dag_shared_uses"):
         if merged["counters"].get(probe, 0) == 0:
             reach.append("probe '%s' never fired in this batch" % probe)
     ev = {
@@ -656,7 +735,7 @@ def parent(tier, master, runs, workers, budget_s):
         "coverage": {
             "evaluations": merged["runs"],
             "distinct_nontrivial": len(fps),
-            "rule": "case = seeded tree (1..120 leaves, thorough 300; shared sub-trees; atom classes nil / 1 byte / short / 32 / ~64 bytes) offered through one of 13 wrappers: Program.to, CLVMTree.from_bytes, LazyNode from deser_legacy / deser_backrefs / deser_2026 / deser_auto, Program.wrap of a LazyNode / CLVMTree / simulated storage, a LazyNode produced by clvm_tree_to_lazy_node itself, a MIXED tree (plain-Python spine whose sub-trees are handles walked out of three LazyNode allocators, a CLVMTree and a Program of the same tree; also under Program.wrap), and a harness storage object whose .pair decides per call - from the run PRNG, recorded as an explicit list for replay - whether to return cached or fresh child objects, whether to run gc.collect(), and how many same-size junk objects to allocate and free first (address-reuse churn). Oracle: ser_legacy(deser_2026(ser_2026(result))) and ser_legacy(result) equal the harness's own classic serialization of the tree. Non-trivial: tree with >= 2 pairs; distinct = sha256 fingerprints of (tree, wrapper, outcome).",
+            "rule": "case = seeded tree (1..120 leaves, thorough 300; shared sub-trees; atom classes nil / 1 byte / short / 32 / ~64 bytes) offered through one of 17 wrappers: Program.to, CLVMTree.from_bytes, LazyNode from deser_legacy / deser_backrefs / deser_2026 / deser_auto, Program.wrap of a LazyNode / CLVMTree / simulated storage, a LazyNode produced by clvm_tree_to_lazy_node itself, an identity-sharing object graph (dag_*: equal sub-trees are one Python object with several parents, incl. mirrored pairs (a . b)/(b . a) over the same children; plain objects, Program.to over shared Program children, plain pairs over LazyNode-backed leaves; per distinct value the simulator decides interned or fresh), a MIXED tree (plain-Python spine whose sub-trees are handles walked out of three LazyNode allocators, a CLVMTree and a Program of the same tree; also under Program.wrap), and a harness storage object whose .pair decides per call - from the run PRNG, recorded as an explicit list for replay - whether to return cached or fresh child objects, whether to run gc.collect(), and how many same-size junk objects to allocate and free first (address-reuse churn). Oracle: ser_legacy(deser_2026(ser_2026(result))) and ser_legacy(result) equal the harness's own classic serialization of the tree. Non-trivial: tree with >= 2 pairs; distinct = sha256 fingerprints of (tree, wrapper, outcome).",
             "samples": samples,
             "simulated_runs": merged["runs"],
             "nontrivial_runs": merged["nontrivial"],
